@@ -36,10 +36,13 @@ PodsOf(q) == {p \in DOMAIN pod : pod[p].q = q}
 SumOver(S, f(_)) == FoldSet(LAMBDA x, acc : acc + f(x), 0, S)
 
 (**************************** figures from scratch **************************)
-SelfRequest(q, d)   == SumOver(PodsOf(q), LAMBDA p : pod[p].req[d])
-SelfUsed(q, d)      == SumOver({p \in PodsOf(q) : pod[p].assigned}, LAMBDA p : pod[p].req[d])
-SelfNPRequest(q, d) == SumOver({p \in PodsOf(q) : pod[p].np}, LAMBDA p : pod[p].req[d])
-SelfNPUsed(q, d)    == SumOver({p \in PodsOf(q) : pod[p].np /\ pod[p].assigned}, LAMBDA p : pod[p].req[d])
+\* a pod counts in its group only in the dimensions the group declares (its max); the admission webhook (C15) makes
+\* the declared dimensions agree along a tree, so the mask is the same for every ancestor
+MReq(p, d) == IF d \in quota[pod[p].q].dims THEN pod[p].req[d] ELSE 0
+SelfRequest(q, d)   == SumOver(PodsOf(q), LAMBDA p : MReq(p, d))
+SelfUsed(q, d)      == SumOver({p \in PodsOf(q) : pod[p].assigned}, LAMBDA p : MReq(p, d))
+SelfNPRequest(q, d) == SumOver({p \in PodsOf(q) : pod[p].np}, LAMBDA p : MReq(p, d))
+SelfNPUsed(q, d)    == SumOver({p \in PodsOf(q) : pod[p].np /\ pod[p].assigned}, LAMBDA p : MReq(p, d))
 
 RECURSIVE ChildRequest(_, _), Request(_, _), Limited(_, _), Used(_, _), NPRequest(_, _), NPUsed(_, _)
 \* what the subtree asks for: own pods + the max-limited requests of the child groups
@@ -75,7 +78,8 @@ IsAncestorOrSelf(a, n) == Reaches(n, a, Cardinality(DOMAIN quota) + 1)
 \* operations issued concurrently on distinct pods can be applied as one step (they commute in the
 \* abstract state, so any linearisation gives the same objects).
 QBody(r) == [parent |-> r.parent, isParent |-> r.isParent, lent |-> r.lent, min |-> r.min, max |-> r.max,
-             weight |-> r.weight]      \* shared weight (defaults to max)
+             weight |-> r.weight,      \* shared weight (defaults to max)
+             dims |-> r.dims]          \* declared dimensions (C01/C02 drivers: all of Dims)
 
 RECURSIVE ReachesIn(_, _, _, _)
 ReachesIn(Q, n, a, k) == IF n = a THEN TRUE
